@@ -88,7 +88,7 @@ def run_cell(fn, pre_list, budget_s, per_path_timeout=None, max_samples=6, max_p
     res = {
         'paths': 0, 'confirmed': 0, 'ignored': 0, 'unknown_paths': 0, 'known_paths': 0,
         'reached': 0, 'samples': [], 'counterexamples': [], 'exhausted': False,
-        'known_ids': {}, 'unknown_reasons': {},
+        'known_ids': {}, 'unknown_reasons': {}, 'ignore_reasons': {},
     }
     ppt = options.get_per_path_timeout()
     i = 0
@@ -148,11 +148,13 @@ def run_cell(fn, pre_list, budget_s, per_path_timeout=None, max_samples=6, max_p
                         space.detach_path()
                         sample = _safe_repr_args(deep_realize(dict(pre_args.arguments)))
                 status = VerificationStatus.CONFIRMED if good else VerificationStatus.REFUTED
-            except IgnoreAttempt:
+            except IgnoreAttempt as e:
                 status = None
+                r = 'ignore: ' + (str(e) or '?')[:80]
+                res['ignore_reasons'][r] = res['ignore_reasons'].get(r, 0) + 1
             except UnexploredPath as e:
                 status = VerificationStatus.UNKNOWN
-                r = type(e).__name__
+                r = type(e).__name__ + ': ' + str(e)[:120]
                 res['unknown_reasons'][r] = res['unknown_reasons'].get(r, 0) + 1
             except NotDeterministic:
                 status = VerificationStatus.UNKNOWN
